@@ -96,7 +96,7 @@ NOC == <<"N", "Ao", "C">>
 Script ==
   CASE ScriptName = "free" -> <<>>
     \* torn record of a big series record with acknowledged out-of-order data in the WBL (KF-C03-1, KF-C03-2)
-    [] ScriptName = "k1" -> NC \o NOC \o NC
+    [] ScriptName = "k1" -> <<"N", "A", "C">> \o NOC \o NC
     \* restarts (one WAL segment each), head compaction with checkpoint and segment removal, again (old checkpoint removed)
     [] ScriptName = "s1" -> NC \o <<"R">> \o NCC \o <<"R">> \o NC \o <<"R">> \o NJC \o <<"Hb">> \o NJC \o <<"R">> \o NJC \o <<"Hb", "R">>
     \* head compaction, delete over head and block, compaction, tombstone cleaning, restart
